@@ -263,14 +263,30 @@ def applyOps {ε : Type} : List (Json → Except ε Json) → Json → Except (P
     | .ok s => applyOps ops s
     | .error e => .error e
 
+/-- `request == json!({"error": "unable to display query"})` (`serde_json` equality) -/
+def isNoRequest : Json → Bool
+  | .obj [("error", .str "unable to display query")] => true
+  | _ => false
+
+/-- the `with_request` closure of `apply_input_plugins`: an error response whose request is the placeholder
+(an invariant error) gets the original query as its request -/
+def withRequest {ε : Type} (query : Json) : PipeErr ε → PipeErr ε
+  | .plugin r e => if isNoRequest r then .plugin query e else .plugin r e
+  | .invariant r => if isNoRequest r then .invariant query else .invariant r
+  | .notObject r => .notObject r
+
 /-- `apply_input_plugins(query, plugins)`: a query that is not a JSON object is answered with an error
-response that echoes it, before any plugin runs -/
+response that echoes it, before any plugin runs; an invariant error (placeholder request) of the plugin
+stage or of the final flatten is answered with the original query as its request -/
 def applyInputPlugins {ε : Type} (plugins : List (Json → Except ε Json)) (query : Json) :
     Except (PipeErr ε) (List Json) :=
   if query.isObject then
     match applyOps plugins (.arr [query]) with
-    | .ok s => jsonArrayFlatten s
-    | .error e => .error e
+    | .ok s =>
+      match jsonArrayFlatten s with
+      | .ok qs => .ok qs
+      | .error e => .error (withRequest query e)
+    | .error e => .error (withRequest query e)
   else .error (.notObject query)
 
 /-! ### plugins from configuration -/
